@@ -21,7 +21,9 @@ corrupt   one member at a time, every position that carries a data stream, archi
           "crc"    zip: the CRC-32 field of the member (local + central header) is wrong
           "trunc"  zip: the deflate stream of the member ends early (header says so, the container is structurally intact)
                    7z:  the pack stream of the member's folder ends early (pack size in the header agrees)
-          "flip"   7z:  one byte of the member's packed data is inverted (the stored CRC no longer matches)
+          "flip"   7z:  one byte of the member's packed data is inverted (copy coder: a byte in the middle of the member, the stored
+                        CRC no longer matches; LZMA / LZMA2: the first byte of the folder's pack stream, which no decoder accepts)
+          truncation keeps the first half of the stream
 
 Oracle
   base cases (no corruption): [(filename, file_path, to_json minus file metadata)] of read_archive(BytesIO(archive), path=A) equals,
